@@ -224,13 +224,13 @@ reg("C19",
     needs_cli=True,
     rule="textual flag values fed to flag.Value.Set of the real flag types through the verif driver of package main: "
          "-rate N, N/unit, N/kunit, N/compound, 0, infinity and 17 malformed forms (each both as raw text against the "
-         "model and against the generator's intent, plus the String()->Set round trip); 1..8 repeated -header lines with "
+         "model and against the generator's intent, plus the String()->Set round trip; sequences of 2..4 -rate flags); 1..8 repeated -header lines with "
          "random spacing/case and malformed lines; -max-body in every documented notation, -1 and malformed; -dns-ttl; "
          "1..6 repeated -connect-to tuples; -resolvers lists (IPv4 with/without port, invalid, IPv6 = declared don't-care); "
          "every case is tagged non-trivial",
     clauses={1: "accepted -rate N/D does not store exactly N per D", 2: "-rate 0/infinity rejected", 3: "-rate 0/infinity does not give an unlimited rate that demands -max-workers",
              4: "malformed -rate accepted", 5: "printed rate does not parse back to the same rate (implementation round trip)", 6: "printed rate read by the model differs from the stored rate",
-             7: "max-workers guard trips for a limited rate", 30: "well-formed -header rejected", 31: "header values not accumulated in order under the exact key", 32: "a header key is missing",
+             7: "max-workers guard trips for a limited rate", 8: "-rate given several times: a later well-formed occurrence does not replace the rate as a whole, or a malformed one is accepted", 30: "well-formed -header rejected", 31: "header values not accumulated in order under the exact key", 32: "a header key is missing",
              43: "-max-body value differs from the documented meaning", 53: "-dns-ttl value differs from the documented meaning",
              62: "well-formed -connect-to rejected", 63: "-connect-to mapping differs from the documented one", 73: "-resolvers addresses not normalised as documented"},
     assumptions=["time.ParseDuration, strconv.Atoi, datasize.UnmarshalText, net.SplitHostPort, net.ParseIP are library code: reference models in Base/Duration.v, Base/Str.v, Model/Flags.v, sampled on every run",
